@@ -517,8 +517,8 @@ func checkWrappersFor(c *core.Ctx, p *packages.Package, d *declIndex, innerT str
 			if _, isErr := mp.ret.(*vn.ErrVal); isErr {
 				continue
 			}
-			if mp.result.String() == "-Inf" {
-				continue
+			if mp.result.String() == "-Inf" || mp.result.DependsOn(sym.SymAtom("-Inf")) {
+				continue // outside the support of the wrapper or of the inner family
 			}
 			nval++
 			atoms := condAtoms(mp.condvs)
